@@ -71,6 +71,7 @@ type Plan struct {
 	FailOps    []string     `json:"fail_ops,omitempty"`    // identity-keyed: "name|arghash" fails
 	AbortAt    int          `json:"abort_at,omitempty"`    // >0: the callback at seam index AbortAt-1 panics
 	Clock      int64        `json:"clock,omitempty"`       // logical clock read by `now`
+	Reenter    []string     `json:"reenter,omitempty"`     // "computed" variables: serving their Get re-enters the library (same Ctx) first
 	CtxDone    bool         `json:"ctx_done,omitempty"`    // the request's context.Context (Ctx.Ctx) is already cancelled; the engine must not care
 }
 
@@ -84,6 +85,7 @@ func (p *Plan) Clone() Plan {
 	q.FailAt = append([]int(nil), p.FailAt...)
 	q.FailVars = append([]string(nil), p.FailVars...)
 	q.FailOps = append([]string(nil), p.FailOps...)
+	q.Reenter = append([]string(nil), p.Reenter...)
 	return q
 }
 
@@ -161,6 +163,8 @@ type Env struct {
 	KeyOf       func(name string) int16
 	KeyMismatch string
 	counts      map[string]int64
+	reenter     map[string]bool
+	inSub       bool
 }
 
 func NewEnv(ops map[string]*OpSpec, p *Plan) *Env {
@@ -185,6 +189,12 @@ func NewEnv(ops map[string]*OpSpec, p *Plan) *Env {
 		e.failVars = map[string]bool{}
 		for _, n := range p.FailVars {
 			e.failVars[n] = true
+		}
+	}
+	if len(p.Reenter) > 0 {
+		e.reenter = map[string]bool{}
+		for _, n := range p.Reenter {
+			e.reenter[n] = true
 		}
 	}
 	if len(p.FailOps) > 0 {
@@ -217,6 +227,13 @@ func (e *Env) Get(varKey int16, name string) (interface{}, error) {
 		e.Yield("get", name)
 	}
 	e.checkKey("Get", varKey, name)
+	if e.reenter[name] && e.Sub != nil && !e.inSub {
+		// a computed variable: its fetch evaluates another rule first
+		e.inSub = true
+		e.Fired["reentrant_get"]++
+		e.Sub()
+		e.inSub = false
+	}
 	site := e.N
 	e.N++
 	c := Call{Kind: "get", Name: name, VarKey: varKey, Phase: e.Phase}
@@ -298,9 +315,11 @@ func (e *Env) CallOp(name string, args []interface{}) (interface{}, error) {
 	case spec.Kind == "now":
 		c.Res = e.Plan.Clock
 	case spec.Kind == "sub":
-		if e.Sub != nil {
+		if e.Sub != nil && !e.inSub {
 			e.Fired["reentrant_eval"]++
+			e.inSub = true
 			c.Res = e.Sub()
+			e.inSub = false
 		} else {
 			c.Res = int64(0)
 		}
